@@ -46,16 +46,16 @@ def is_tok(x):
     return not x.children and isinstance(x.data.get('word'), str) and 'num' in x.data
 
 
-def check_one(mtj, op, relc):
+def check_one(mtj, op, relc, order=None):
     mt = model.MT.from_json(mtj)
-    case = {'mt': mtj, 'op': op, 'relc': relc}
+    case = {'mt': mtj, 'op': op, 'relc': relc, 'order': order}
     out = []
 
     def bad(kind, detail):
         out.append({'kind': kind, 'where': op, 'case': case,
                     'detail': '%s [input %s, relc=%r]' % (detail, model.mt_str(mt.root, mt.toks), relc),
                     'what': '%s: %s' % (op, kind)})
-    t = build(mt)
+    t = build(mt, child_order=order)
     nodes = all_nodes(t)
     before = {id(x): x.parent for x in nodes}
     toks = sorted(raw_leaves(t), key=lambda x: x.data['num'])
@@ -129,7 +129,7 @@ def ops_for(n):
 
 def check_case(case):
     with quiet():
-        return check_one(case['mt'], case['op'], case['relc'])[0]
+        return check_one(case['mt'], case['op'], case['relc'], case.get('order'))[0]
 
 
 def run_chunk(chunk):
@@ -137,6 +137,7 @@ def run_chunk(chunk):
     with quiet():
         n = chunk['n']
         words = list(word_assignments(n, chunk['maxp']))
+        idx = 0
         for sh, k in sweep.iter_shapes(chunk):
             root = model.decorate(sh, lambda p, s: 'N' + ''.join(map(str, p)))
             last = None
@@ -144,7 +145,8 @@ def run_chunk(chunk):
                 mt = model.MT(1, model.mk_tokens(n, words=ws), root)
                 j = mt.to_json()
                 for op, relc in ops_for(n):
-                    vs, nmoved = check_one(j, op, relc)
+                    idx += 1
+                    vs, nmoved = check_one(j, op, relc, None if idx % 2 else 'rev')
                     res.evals += 1
                     if nmoved:
                         res.nontrivial += 1
